@@ -94,6 +94,7 @@ struct ghost_cfg {
   /* ---- configuration chosen by the harness ---------------------------------- */
   bool cfg_nofault;      /* no injected failures                               */
   bool cfg_child_side;   /* fork() returns 0                                   */
+  bool cfg_release_after_stop; /* destroy harness: closes only once the stop plan is done */
   int cfg_std_fileno[3]; /* what fileno(stdin/stdout/stderr) answers, or -1    */
   int cfg_file_fd;       /* what fileno(user FILE) answers, or -1              */
   const char *cfg_path[4];   /* registered user paths                          */
